@@ -117,18 +117,13 @@ Qed.
 Definition var_ok (s : store) (v : var) : Prop :=
   v = 0 \/ (0 < v <= Z.of_nat (length (pubs s))) \/ (0 < - v <= Z.of_nat (length (privs s))).
 Definition lc_ok (s : store) (l : lc) : Prop := Forall (fun vc => var_ok s (fst vc)) l.
-Definition var_okb (np nw : Z) (v : var) : bool :=
-  (v =? 0) || ((0 <? v) && (v <=? np)) || ((0 <? - v) && (- v <=? nw)).
-Definition lc_okb (np nw : Z) (l : lc) : bool := forallb (fun vc => var_okb np nw (fst vc)) l.
 (* every wire handed to the backend or observed mentions allocated variables only (computable) *)
 Fixpoint scoped_cmds (np nw : Z) (cs : list cmd) : bool :=
   match cs with
   | [] => true
   | CAlloc Pub _ :: cs' => scoped_cmds (np + 1) nw cs'
   | CAlloc Priv _ :: cs' => scoped_cmds np (nw + 1) cs'
-  | CEmit a b y :: cs' => lc_okb np nw (wire a) && lc_okb np nw (wire b) && lc_okb np nw (wire y) && scoped_cmds np nw cs'
-  | COutLC _ x :: cs' => lc_okb np nw (wire x) && scoped_cmds np nw cs'
-  | _ :: cs' => scoped_cmds np nw cs'
+  | c :: cs' => cmd_scoped np nw c && scoped_cmds np nw cs'
   end.
 
 Lemma var_ok_ext s s' v : ext s s' -> var_ok s v -> var_ok s' v.
